@@ -545,6 +545,13 @@ func genItem(t *rapid.T) Item {
 		fns := []string{"sum", "avg", "min", "max", "count"}
 		l := agg(rapid.SampledFrom(fns).Draw(t, "fn"), rapid.SampledFrom(exprArgs).Draw(t, "earg"))
 		r := agg(rapid.SampledFrom(fns).Draw(t, "fn2"), rapid.SampledFrom(exprArgs).Draw(t, "earg2"))
+		if rapid.IntRange(0, 2).Draw(t, "sibling") == 0 {
+			// the same aggregate over an argument that differs in the operator only (sum(x * 2) / sum(x + 2)):
+			// names the engine derives from the argument text have to keep the two apart
+			parts := strings.Split(l.Arg, " ")
+			parts[1] = map[string]string{"+": "-", "-": "*", "*": "+"}[parts[1]]
+			r = agg(l.Fn, strings.Join(parts, " "))
+		}
 		e = bin(genOp(t, false), l, r)
 		if rapid.IntRange(0, 3).Draw(t, "third") == 0 {
 			op3 := genOp(t, false)
